@@ -15,7 +15,10 @@ use std::sync::atomic::{AtomicBool, Ordering};
 use std::sync::Mutex;
 use std::time::Instant;
 
-pub const VERIF_DIR: &str = "/verif";
+/// root of the verification tree (the directory of the `check` script; /verif unless VERIF_DIR is set)
+pub fn verif_dir() -> String {
+    std::env::var("VERIF_DIR").unwrap_or_else(|_| "/verif".to_string())
+}
 
 #[derive(Clone, Copy, Debug, PartialEq, Eq)]
 pub enum Tier {
@@ -135,7 +138,7 @@ pub fn case_node(case: &Value) -> Option<Node> {
 }
 
 pub fn write_replay(ctx: &RunCtx, v: &Violation) -> String {
-    let dir = format!("{}/replays/{}", VERIF_DIR, ctx.prop);
+    let dir = format!("{}/replays/{}", verif_dir(), ctx.prop);
     let _ = std::fs::create_dir_all(&dir);
     let body = json!({
         "property": ctx.prop,
@@ -172,7 +175,7 @@ pub struct Known {
 
 impl Known {
     pub fn load() -> Known {
-        let path = format!("{}/known_findings.json", VERIF_DIR);
+        let path = format!("{}/known_findings.json", verif_dir());
         let mut k = Known::default();
         // maintenance aid (never set by the registered commands): pretend the listed findings are not
         // in the file, so that the exploration rediscovers them and their witnesses can be recorded
@@ -261,7 +264,7 @@ impl Outcome {
 }
 
 pub fn write_evidence(ctx: &RunCtx, o: &Outcome, known_reported: &[String]) {
-    let dir = format!("{}/evidence", VERIF_DIR);
+    let dir = format!("{}/evidence", verif_dir());
     let _ = std::fs::create_dir_all(&dir);
     let mut samples = o.stats.samples.clone();
     samples.truncate(20);
